@@ -466,5 +466,7 @@ func runC11(r *Run) {
 	c11LruParts(r)
 	// ------------------------------------------------------------------ part 7
 	c11FlushFillParts(r)
-	r.Finish("part 1: sequential histories (60..260 operations, or enough to overflow a shard) of store / get / flush / len on pkg/cache.Cache for configured sizes {-5, 0, 1, 63, 64, 100, 1024, 1025, 1100, 2048, 4097} with keys hashed into one hot shard and across shards, expiry already past / 25 ms ahead / far ahead, eviction victims read back after every store; sweep histories with a 15 ms cleaner; part 2: 8 goroutines x 1500 operations (store / get / flush / len / range, short expiries, 5 ms cleaner) over 120 keys in 3 shards with logical timestamps: every hit is checked for foreign, expired, overwritten or flushed values, every Len / Range count against the capacity; part 3: bursts of 6 simultaneous lookups of one just-expired key followed by get / range / len / store / get on it; part 4 (exported API only): lookups in flight across the expiry sweep: 2..3 writers storing values that live 20 us .. 3 ms and carry key, store number and expiry, 3..40 readers, the cache's own cleaner every 1 us .. 1 ms, rounds with 24-byte values under forced collections and more goroutines than processors, and rounds with 16 / 64 / 256 KiB values whose every cache line repeats the value's stamp: every hit must be a value some store wrote (not zero, not a mixture), stored under the looked-up key, with the expiry it was stored with, not expired when the lookup began; part 5 (pkg/concurrent_map.Map directly): sequential histories of Set / Get / Del / TestAndSet / RangeDo with setting and deleting callbacks / Flush / Len replayed on the model, and forced overlaps: the callback of a RangeDo pass starts another goroutine's Set of the visited key / Set of a new key into a full shard (on all 64 shards) / TestAndSet / Flush on the shard being visited and lingers 300 us; when both have returned every key and Len are read and must be what 'pass, then the other operation' or the opposite order leaves (reference and model list both): a value derived from an overwritten one, a flushed entry that is back, or Len above the capacity is a failure, a lost entry is not; part 6 (pkg/lru, pkg/concurrent_lru): sequential histories of Add / Get / Del / PopOldest / Clean / Flush / Len on LRU, ConcurrentLRU and ShardedLRU (1..8 shards, maxima 1..5, one operation in three on the previous operation's key) with the onEvict arguments recorded, replayed on the model; every hit must be the value most recently added under that key and not flushed, Len <= shards * max; concurrent histories (8 goroutines x 1500 operations, 1..64 shards) with logical timestamps checked per hit for foreign, overwritten or flushed values; part 7 (the capacity across flushes): sequential histories of 1..3 rounds of [fill with distinct live keys below / up to / beyond the capacity, Flush, lookups of flushed keys] and then more distinct keys than the capacity, for configured sizes {-7, 0, 1, 63, 64, 100, 700, 1024, 1025, 1087, 1100, 1500, 2048 (3000, 4097 thorough)}, keys placed round-robin / at random / into three hot shards, Len() <= max(size, 1024) checked after every store and the history replayed on the model with victims read back; concurrent rounds: 4 goroutines store 2x the capacity in distinct live keys after and during 1..3 flushes while Len() and the entry count of a Range are sampled against the capacity; parts 2-7 run a second time under the race detector")
+	// ------------------------------------------------------------------ part 8
+	c11RefreshParts(r)
+	r.Finish("part 1: sequential histories (60..260 operations, or enough to overflow a shard) of store / get / flush / len on pkg/cache.Cache for configured sizes {-5, 0, 1, 63, 64, 100, 1024, 1025, 1100, 2048, 4097} with keys hashed into one hot shard and across shards, expiry already past / 25 ms ahead / far ahead, eviction victims read back after every store; sweep histories with a 15 ms cleaner; part 2: 8 goroutines x 1500 operations (store / get / flush / len / range, short expiries, 5 ms cleaner) over 120 keys in 3 shards with logical timestamps: every hit is checked for foreign, expired, overwritten or flushed values, every Len / Range count against the capacity; part 3: bursts of 6 simultaneous lookups of one just-expired key followed by get / range / len / store / get on it; part 4 (exported API only): lookups in flight across the expiry sweep: 2..3 writers storing values that live 20 us .. 3 ms and carry key, store number and expiry, 3..40 readers, the cache's own cleaner every 1 us .. 1 ms, rounds with 24-byte values under forced collections and more goroutines than processors, and rounds with 16 / 64 / 256 KiB values whose every cache line repeats the value's stamp: every hit must be a value some store wrote (not zero, not a mixture), stored under the looked-up key, with the expiry it was stored with, not expired when the lookup began; part 5 (pkg/concurrent_map.Map directly): sequential histories of Set / Get / Del / TestAndSet / RangeDo with setting and deleting callbacks / Flush / Len replayed on the model, and forced overlaps: the callback of a RangeDo pass starts another goroutine's Set of the visited key / Set of a new key into a full shard (on all 64 shards) / TestAndSet / Flush on the shard being visited and lingers 300 us; when both have returned every key and Len are read and must be what 'pass, then the other operation' or the opposite order leaves (reference and model list both): a value derived from an overwritten one, a flushed entry that is back, or Len above the capacity is a failure, a lost entry is not; part 6 (pkg/lru, pkg/concurrent_lru): sequential histories of Add / Get / Del / PopOldest / Clean / Flush / Len on LRU, ConcurrentLRU and ShardedLRU (1..8 shards, maxima 1..5, one operation in three on the previous operation's key) with the onEvict arguments recorded, replayed on the model; every hit must be the value most recently added under that key and not flushed, Len <= shards * max; concurrent histories (8 goroutines x 1500 operations, 1..64 shards) with logical timestamps checked per hit for foreign, overwritten or flushed values; part 7 (the capacity across flushes): sequential histories of 1..3 rounds of [fill with distinct live keys below / up to / beyond the capacity, Flush, lookups of flushed keys] and then more distinct keys than the capacity, for configured sizes {-7, 0, 1, 63, 64, 100, 700, 1024, 1025, 1087, 1100, 1500, 2048 (3000, 4097 thorough)}, keys placed round-robin / at random / into three hot shards, Len() <= max(size, 1024) checked after every store and the history replayed on the model with victims read back; concurrent rounds: 4 goroutines store 2x the capacity in distinct live keys after and during 1..3 flushes while Len() and the entry count of a Range are sampled against the capacity; part 8 (refresh against removal): in every shard of a completely full map (sizes 64 .. 2048) a Set of a stored key, a Del of that key and a Set of a new key of the same shard are started from the callback of a RangeDo pass that is inside the shard, one after the other with time to queue up on the shard lock (1..3 refreshers, removal and new store by one goroutine or two; also released by a spin gate with no pass), and the same through the cache (Store of a stored key whose entry just expired, the lookup that removes it, Store of a new key, started from a Range callback): Len() <= capacity when all have returned and for every Len() sampled meanwhile; parts 2-8 run a second time under the race detector")
 }
